@@ -166,10 +166,10 @@ def run(ctx):
     # once; first/last/nth/mode run before max/min so that the recorded order defect does not mask anything)
     order = ["first", "last", "nth", "mode"] + [h for h in HELPERS if h not in ("first", "last", "nth", "mode", "max", "min")] + ["max", "min"]
     matrix = []
-    for kind in (["float", "date", "float32"] if quick else KINDS + ["float32"]):
+    for kind in (["float", "date", "float32", "timedelta"] if quick else KINDS + ["float32", "timedelta"]):
         hist = [{"t": "proc", "cache": True}]
         for h in order:
-            if kind in ("date", "datetime") and h not in ("count", "count_unique", "first", "last", "nth", "mode", "min", "max"):
+            if kind in ("date", "datetime", "timedelta") and h not in ("count", "count_unique", "first", "last", "nth", "mode", "min", "max"):
                 continue
             for layout in range(9):
                 hist.append({"t": "call", "h": h, "kind": kind, "status": "", "broken": False, "layout": layout, "h2": "",
@@ -177,7 +177,7 @@ def run(ctx):
                                    "ddof": rng.choice([0, 1, 2])}, "big": layout % 2 == 1})
         # larger random groups (16..40 rows, few distinct values => ties, interleaved) for the order / sort sensitive helpers
         for h in ("mode", "first", "last", "nth", "count_unique", "median", "quantile"):
-            if kind in ("date", "datetime") and h in ("median", "quantile"):
+            if kind in ("date", "datetime", "timedelta") and h in ("median", "quantile"):
                 continue
             for _ in range(6 if quick else 30):
                 n1, n2 = rng.randint(16, 40), rng.randint(1, 5)
